@@ -1513,9 +1513,16 @@ func (stmt *UpsertIntoStmt) execAt(ctx context.Context, tx *SQLTx, params map[st
 			return nil, ErrMaxKeyLengthExceeded
 		}
 
-		_, err = tx.get(ctx, mappedPKey)
+		pkRef, err := tx.get(ctx, mappedPKey)
 		if err != nil && !errors.Is(err, store.ErrKeyNotFound) {
 			return nil, err
+		}
+
+		// tx.get always finds a key written by this very transaction, also when the
+		// transaction's last write to it was a delete (the deleted flag of the ongoing
+		// entry is only visible on the returned reference): the row does not exist then
+		if err == nil && pkRef.KVMetadata() != nil && pkRef.KVMetadata().Deleted() {
+			err = store.ErrKeyNotFound
 		}
 
 		if errors.Is(err, store.ErrKeyNotFound) && pkMustExist {
